@@ -229,8 +229,8 @@ def r_star(x):
 
 
 class Grammar:
-    def __init__(self, path):
-        self.src = open(path).read()
+    def __init__(self, path, text=None):
+        self.src = open(path).read() if text is None else text
         self.rules, self.order = Parser(tokenize(self.src)).grammar()
         self._lang = {}
 
@@ -405,6 +405,131 @@ class Grammar:
                     out.add("<" + x[1] + ">")
             lits(e[1][0][1])
         return out
+
+    # ---- PEG ordered-choice analysis ---------------------------------------------
+    _CLASSES = {
+        "ASCII_DIGIT": "0123456789", "ASCII_NONZERO_DIGIT": "123456789", "ASCII_BIN_DIGIT": "01", "ASCII_OCT_DIGIT": "01234567",
+        "ASCII_HEX_DIGIT": "0123456789abcdefABCDEF", "ASCII_ALPHA_LOWER": "abcdefghijklmnopqrstuvwxyz",
+        "ASCII_ALPHA_UPPER": "ABCDEFGHIJKLMNOPQRSTUVWXYZ",
+        "ASCII_ALPHA": "abcdefghijklmnopqrstuvwxyzABCDEFGHIJKLMNOPQRSTUVWXYZ",
+        "ASCII_ALPHANUMERIC": "abcdefghijklmnopqrstuvwxyzABCDEFGHIJKLMNOPQRSTUVWXYZ0123456789",
+        "NEWLINE": "\r\n",
+    }
+
+    def first(self, e, _stack=()):
+        """(set of possible first characters — '\x00' stands for 'any other character', nullable) of a PEG expression; lookaheads are
+        treated as empty (so the set over-approximates what can come first)"""
+        k = e[0]
+        if k == "str":
+            return ({e[1][0]}, False) if e[1] else (set(), True)
+        if k == "insens":
+            return ({e[1][0].lower(), e[1][0].upper()}, False) if e[1] else (set(), True)
+        if k in ("neg", "pos"):
+            return set(), True
+        if k == "range":
+            return {chr(c) for c in range(ord(e[1]), min(ord(e[2]), 127) + 1)} | ({"\x00"} if ord(e[2]) > 127 else set()), False
+        if k == "seq":
+            out, nullable = set(), True
+            for x in e[1]:
+                f, n = self.first(x, _stack)
+                out |= f
+                if not n:
+                    nullable = False
+                    break
+            return out, nullable
+        if k == "choice":
+            out, nullable = set(), False
+            for x in e[1]:
+                f, n = self.first(x, _stack)
+                out |= f
+                nullable = nullable or n
+            return out, nullable
+        if k in ("opt", "star"):
+            return self.first(e[1], _stack)[0], True
+        if k == "plus":
+            return self.first(e[1], _stack)
+        if k == "rep":
+            f, n = self.first(e[1], _stack)
+            return f, n or e[2] == 0
+        if k == "id":
+            q = e[1]
+            if q in self._CLASSES:
+                return set(self._CLASSES[q]), False
+            if q in ("ANY", "ASCII"):
+                return {chr(c) for c in range(128)} | {"\x00"}, False
+            if q in ("SOI", "EOI"):
+                return set(), True
+            if q not in self.rules or q in _stack:
+                return {chr(c) for c in range(128)} | {"\x00"}, True     # unknown: anything
+            return self.first(self.rules[q][1], _stack + (q,))
+        return {chr(c) for c in range(128)} | {"\x00"}, True
+
+    def dead_alternatives(self):
+        """ordered choices in which a later alternative begins with the complete element sequence of an earlier one. Under PEG
+        semantics the earlier alternative succeeds wherever the later one would, the choice commits to it, and the later one is
+        never taken. Returns [(rule, earlier index, later index, rest elements, verdict, reason)] where verdict is "lost" when the
+        continuation of the choice inside the rule provably rejects what the dead alternative would have consumed next."""
+        out = []
+
+        def fl(e):
+            return list(e[1]) if e[0] == "seq" else [e]
+
+        def walk(rule, e, cont):
+            k = e[0]
+            if k == "seq":
+                items = e[1]
+                for i, x in enumerate(items):
+                    walk(rule, x, items[i + 1:] + cont)
+            elif k == "choice":
+                alts = e[1]
+                for j in range(len(alts)):
+                    sj = fl(alts[j])
+                    for i in range(j):
+                        si = fl(alts[i])
+                        rest = None
+                        if len(si) < len(sj) and sj[:len(si)] == si:
+                            rest = sj[len(si):]
+                        elif (len(si) == 1 and si[0][0] == "str" and sj[0][0] == "str" and sj[0][1] != si[0][1]
+                              and sj[0][1].startswith(si[0][1])):
+                            rest = [("str", sj[0][1][len(si[0][1]):])] + sj[1:]
+                        if rest is None:
+                            continue
+                        rf, rnull = self.first(("seq", rest))
+                        verdict, why = "dead", "alternative %d can never be taken" % (j + 1)
+                        if not rnull and cont and cont[0][0] == "neg":
+                            gf, _ = self.first(cont[0][1])
+                            if rf and rf <= gf:
+                                verdict = "lost"
+                                why = ("after alternative %d commits, the following negative lookahead rejects every input on which "
+                                       "alternative %d would have continued (next character in %r)" % (i + 1, j + 1, "".join(sorted(rf))[:12]))
+                        out.append((rule, i, j, rest, verdict, why))
+                        break
+                for x in alts:
+                    walk(rule, x, cont)
+            elif k in ("opt", "star", "plus", "rep", "neg", "pos"):
+                walk(rule, e[1], [] if k in ("neg", "pos") else cont)
+
+        n = 0
+        for name in self.order:
+            walk(name, self.rules[name][1], [])
+        return out
+
+    def choice_count(self):
+        n = 0
+
+        def walk(e):
+            nonlocal n
+            if e[0] == "choice":
+                n += 1
+            for x in e[1:]:
+                if isinstance(x, tuple):
+                    walk(x)
+                elif isinstance(x, list):
+                    for y in x:
+                        walk(y)
+        for name in self.order:
+            walk(self.rules[name][1])
+        return n
 
 
 # ------------------------------------------------------------------ automata
